@@ -403,14 +403,29 @@ def rename_in_scope(ir, path, old, new, scope_name, parent_path=()):
                     if isinstance(a, dict) and "code" in a:
                         ren_scope(a["code"])
 
-    def ren_qualified(stmts, q_old, q_new):
-        """the parent scope (and its descendants that do not hide it) may mention scope.old"""
+    def has_named(stmts, name):
+        for st in stmts:
+            if st["k"] == "scope" and st["n"] == name:
+                return True
+            if st["k"] == "if" and (has_named(st["t"], name) or (st.get("e") is not None and has_named(st["e"], name))):
+                return True
+            if st["k"] == "include" and has_named(st["b"], name):
+                return True
+        return False
+
+    def ren_qualified(stmts, q_old, q_new, top=True):
+        """the parent scope (and its descendants that do not hide it) may mention scope.old; a nested scope that
+        itself contains a named scope of the same name sees that nearer one instead"""
         for st in stmts:
             for cont, key in stmt_exprs(st):
                 cont[key] = map_expr(cont[key], lambda x: ["id", q_new] if x[1] == q_old else x)
+            if st["k"] == "macro":
+                continue
             for c in children(st):
-                if st["k"] != "macro":
-                    ren_qualified(c, q_old, q_new)
+                opens_scope = st["k"] in ("block", "scope", "for")
+                if opens_scope and has_named(c, scope_name):
+                    continue
+                ren_qualified(c, q_old, q_new, top=False)
 
     ren_scope(navigate(ir, path))
     if scope_name is not None:
@@ -422,4 +437,37 @@ def rename_in_scope(ir, path, old, new, scope_name, parent_path=()):
 def add_unrelated(ir, path, name):
     ir = copy.deepcopy(ir)
     navigate(ir, path).append({"k": "label", "n": name})
+    return ir
+
+
+def rename_by_model(ir, label_stmt_locator, new, rom="low", files=None, usermap=None):
+    """consistent renaming of ONE label definition and of exactly the references that resolve to it according to the
+    reference environment (vlib/model/refasm.py with tracing).  `label_stmt_locator(ir_copy)` returns the label
+    statement (dict) inside the copy.  -> renamed copy, or None when the model cannot place the program"""
+    from .model import refasm
+
+    ir = copy.deepcopy(ir)
+    target = label_stmt_locator(ir)
+    asm = refasm.Assembler(rom=rom, files=files, usermap=usermap, trace=True)
+    res = asm.run(ir)
+    if res.status != "ok" or id(target) not in asm.trace_defs:
+        return None
+    origin = asm.trace_defs[id(target)]
+    wanted: dict = {}
+    for sid, written, org in asm.trace_refs:
+        if org == origin:
+            wanted.setdefault(sid, set()).add(written)
+
+    def new_name(written):
+        return written.rsplit(".", 1)[0] + "." + new if "." in written else new
+
+    def fix(st, _in_macro):
+        names = wanted.get(id(st))
+        if not names:
+            return
+        for cont, key in stmt_exprs(st):
+            cont[key] = map_expr(cont[key], lambda x: ["id", new_name(x[1])] if x[1] in names else x)
+
+    walk(ir, fix)
+    target["n"] = new
     return ir
